@@ -95,3 +95,60 @@ Definition run_frame_dec (c : list Z) : list Z :=
       if code =? 0 then 0 :: run_msg_dec (kind :: payload) else [code]
   | _ => [-1]
   end.
+
+(* ---- reply headers (engine "msgreply"): the (message type, id) of the frames the library
+   sends in answer to a request frame carrying [id].  One function per kind of request; the
+   code behind each: preinit_connection.go inboundHandshake / initError, connection.go
+   handlePingReq / SendSystemError / protocolError, inbound.go handleCallReq + reqres.go
+   newFragment (first fragment call res, every further one call res continue). ---- *)
+Definition reply_init (id : Z) : list (Z * Z) := [(c_messageTypeInitRes, id)].
+Definition reply_init_refused (id : Z) : list (Z * Z) := [(c_messageTypeError, id)].
+Definition reply_ping (id : Z) : list (Z * Z) := [(c_messageTypePingRes, id)].
+Definition reply_call (fragmented : bool) (id : Z) : list (Z * Z) :=
+  (c_messageTypeCallRes, id) :: (if fragmented then [(c_messageTypeCallResContinue, id)] else []).
+Definition reply_error (id : Z) : list (Z * Z) := [(c_messageTypeError, id)].
+
+(* one scripted request: kind a b.  0 ping a; 1 call a answered in one frame; 2 call a answered
+   in several frames (consecutive equal headers are collapsed by the harness); 3 call a answered
+   by an error frame; 4 calls a and b in flight, answered b then a; 5 (closing) b refused, then a
+   answered; 6 a second call req with the id a of a call in flight: protocol error for a *)
+Definition reply_step (kind a b : Z) : list (Z * Z) :=
+  if kind =? 0 then reply_ping a
+  else if kind =? 1 then reply_call false a
+  else if kind =? 2 then reply_call true a
+  else if kind =? 3 then reply_error a
+  else if kind =? 4 then reply_call false b ++ reply_call false a
+  else if kind =? 5 then reply_error b ++ reply_call false a
+  else reply_error a.
+
+Fixpoint reply_script (l : list Z) : list (Z * Z) :=
+  match l with
+  | kind :: a :: b :: r => reply_step kind a b ++ reply_script r
+  | _ => []
+  end.
+
+Definition put_hdrs (l : list (Z * Z)) : list Z := flat_map (fun p => [fst p; snd p]) l.
+
+(* init_kind init_id (kind a b)* -> (type id)*   init_kind 0 = accepted, otherwise refused
+   (unsupported version, first frame not an init req): an error frame with the id read, and nothing else *)
+Definition run_replyhdr (c : list Z) : list Z :=
+  match c with
+  | ik :: iid :: script =>
+      if ik =? 0 then put_hdrs (reply_init iid ++ reply_script script) else put_hdrs (reply_init_refused iid)
+  | _ => [-1]
+  end.
+
+(* the connecting side (preinit_connection.go outboundHandshake, connection.go onCancel): the
+   init req it sends carries [out_init_id]; an init res is accepted iff it carries that id; a
+   refused one is answered by an error frame with that id; the cancel frame for a call carries
+   the id of the call req.   delta call_id -> init_type init_id accepted (type id) *)
+Definition out_init_id : Z := 1.
+Definition out_accepts (res_id : Z) : bool := res_id =? out_init_id.
+Definition run_replyhdr_out (c : list Z) : list Z :=
+  match c with
+  | delta :: call_id :: _ =>
+      [c_messageTypeInitReq; out_init_id] ++
+      (if out_accepts (wrapU 32 (out_init_id + delta)) then [1; c_messageTypeCancel; call_id]
+       else [0; c_messageTypeError; out_init_id])
+  | _ => [-1]
+  end.
